@@ -690,6 +690,10 @@ class Evaluator:
                 # refactoring splits off (or merges) do not change what is folded
                 if not auto and g0.cls and g0.cls == f.cls and g0 is not f and getattr(self, "inline_own_class", True) and getattr(self, "_depth", 0) < 8:
                     auto = True
+                # a class that is defined in the source file of the folded function is an implementation detail of that
+                # file (an iterator, a guard, a small struct with helpers): its members are folded like file-static helpers
+                if not auto and g0.cls and self.file_local_class(g0.cls) and getattr(self, "_depth", 0) < 8:
+                    auto = True
             if indirect_target and len(indirect_target) == 1 and (nm in inl or (indirect_target[0].d.get("static") and indirect_target[0].kind == "function")):
                 auto = True
             if dyn_target is not None:
@@ -1002,6 +1006,13 @@ class Evaluator:
             self.threw = sub.threw
             raise Thrown(label, exc=getattr(sub, "threw_type", None))
 
+    def file_local_class(self, cls):
+        """the class is defined in a source file (not a header) and the outermost folded function lives in that file"""
+        r = self._root()
+        rec = self.prog.records.get(cls) or self.prog.records.get(cls.split("::")[0])
+        fl = (rec or {}).get("file") or ""
+        return bool(rec) and fl.endswith((".cpp", ".c")) and fl == r.f.file
+
     def _construct(self, prefix, ce, n):
         """a CXXConstructExpr for the object under `prefix`: the constructor is run when it is inlinable.
         Returns True when the object was constructed by running its constructor."""
@@ -1009,7 +1020,7 @@ class Evaluator:
         c = ce.get("ctor") or {}
         g = self.prog.functions.get(c.get("mn"))
         inl = getattr(self, "inline", None) or set()
-        if g is None or g.qn not in inl or g.qn in self.calls:
+        if g is None or g.qn in self.calls or not (g.qn in inl or self.file_local_class(g.cls or "")):
             return False
         args = []
         for a in f.args(ce):
@@ -1037,7 +1048,7 @@ class Evaluator:
                 self.trace.append((g.qn, [prefix], n))
                 hook(prefix)
                 return
-            if g.qn in inl:
+            if g.qn in inl or self.file_local_class(g.cls or ""):
                 self._run_special(g, prefix, [], n, g.qn)
             return
         for fl in reversed(self.prog.records.get(cls, {}).get("fields", [])):
@@ -1085,7 +1096,8 @@ class Evaluator:
             blk = f.blocks[b]
             # evaluate only top-level elements: elements that are not sub-expressions of a later element
             top = self.top_elements(blk)
-            if getattr(self, "objects", False) and any(isinstance(e, dict) for e in blk["el"]):
+            # (objects of a class local to the folded source file are always modelled: see file_local_class)
+            if (getattr(self, "objects", False) or getattr(self, "_live", None) or (f.cls and f.kind in ("ctor", "dtor") and self.file_local_class(f.cls))) and any(isinstance(e, dict) for e in blk["el"]):
                 tops_ = set(top)
                 top = [e for e in blk["el"] if isinstance(e, dict) or e in tops_]
             vals = {}
@@ -1131,7 +1143,8 @@ class Evaluator:
                     for d in n.get("decls", []):
                         if d.get("init") is not None:
                             i0_ = f.strip(d["init"])
-                            if getattr(self, "objects", False) and i0_ is not None and i0_["k"] == "CXXConstructExpr" and (d.get("ct") or "").replace("const ", "").strip() in self.prog.records:
+                            if i0_ is not None and i0_["k"] == "CXXConstructExpr" and (d.get("ct") or "").replace("const ", "").strip() in self.prog.records and \
+                                    (getattr(self, "objects", False) or self.file_local_class((d.get("ct") or "").replace("const ", "").strip())):
                                 try:
                                     if self._construct(d["name"] + ".", i0_, n):
                                         if not hasattr(self, "_live"):
